@@ -961,7 +961,7 @@ class GroupByApply(Expr, GroupByBase):
                 df = RearrangeByColumn(
                     df,
                     [map_columns.get(c, c) for c in cols],
-                    df.npartitions,
+                    self.npartitions,
                     method=self.shuffle_method,
                 )
 
@@ -1075,12 +1075,14 @@ class Median(GroupByShift):
         if isinstance(parent, Projection):
             return groupby_projection(self, parent, dependents)
 
-    @functools.cached_property
-    def npartitions(self):
+    def _divisions(self):
+        if not self.need_to_shuffle:
+            return self.frame.divisions
+        # split_every only reduces the number of partitions we shuffle into
         npartitions = self.frame.npartitions
-        if self.split_every is not None:
-            npartitions = npartitions // self.split_every
-        return npartitions
+        if self.split_every:
+            npartitions = max(npartitions // self.split_every, 1)
+        return (None,) * (npartitions + 1)
 
 
 class GetGroup(Blockwise, GroupByBase):
